@@ -137,6 +137,23 @@ pub fn check_odd(c: &OddNames, st: &mut Stats) -> Check {
     check_bytes(&bytes, &u, c.map.key, st)
 }
 
+/// Zero-length names in every slot (sourceFile values included): whatever the current writer makes of them, the two
+/// readers must agree on the bytes it wrote.
+pub fn check_degenerate(case: &MapCase, st: &mut Stats) -> Check {
+    let bytes = case.file.degenerate(case.key).render(&case.render);
+    let mut u = Universe::from_bytes(&bytes, false, 40, case.key);
+    for list in [&mut u.known_methods, &mut u.known_classes] {
+        if !list.iter().any(|m| m.is_empty()) {
+            list.push(String::new());
+        }
+    }
+    st.class("mapping with zero-length names (degenerate variant)");
+    if st.want_sample() && case.file.blocks.len() >= 2 {
+        st.sample(|| json!({"degenerate mapping": crate::engine::show_bytes(&bytes[..bytes.len().min(800)])}));
+    }
+    check_bytes(&bytes, &u, case.key, st)
+}
+
 pub fn check_corpus(case: &super::c02::CorpusCase, st: &mut Stats) -> Check {
     let mut bytes = std::fs::read(&case.path).map_err(|e| Fail::new("harness-io", format!("{}: {e}", case.path)))?;
     if case.crlf {
@@ -153,7 +170,7 @@ pub fn check_corpus(case: &super::c02::CorpusCase, st: &mut Stats) -> Check {
 
 pub fn run(ctx: &Ctx) -> Report {
     let mut rep = Report::new(ID, "exploration", ctx);
-    rep.rule = "Cases: grammar-generated mappings (representable domain) and corpus files. Per mapping two buffers (written by the frozen pinned 5.5.0 copy in /verif/pinned and by the current tree), each parsed by both readers. Oracle: a reader either rejects with WrongVersion or its transcript over the decoding queries of the universe (class, method, frame by line, frame by params, throwable, text trace, signature) equals the other reader's transcript on the same bytes. evaluations = single query comparisons. Non-trivial = distinct (buffer, query) with a non-empty answer from either reader.".into();
+    rep.rule = "Cases: grammar-generated mappings (representable domain), mappings with injected odd names, degenerate variants with zero-length names in every slot incl. sourceFile values, and corpus files. Per mapping two buffers (written by the frozen pinned 5.5.0 copy in /verif/pinned and by the current tree), each parsed by both readers. Oracle: a reader either rejects with WrongVersion or its transcript over the decoding queries of the universe (class, method, frame by line, frame by params, throwable, text trace, signature) equals the other reader's transcript on the same bytes. evaluations = single query comparisons. Non-trivial = distinct (buffer, query) with a non-empty answer from either reader.".into();
     rep.assumptions = vec![
         "'every release' is represented by two: the pinned snapshot f3fcb84 (frozen copy, compiled without overflow checks like a shipped build) and the working tree".into(),
         "the typed-trace API is not part of the transcript (composition of throwable and frame lookups; its handling of unmapped throwables is an API-level repair, not a change of what bytes mean)".into(),
@@ -161,6 +178,8 @@ pub fn run(ctx: &Ctx) -> Report {
     let n = ctx.cases(4000, 180_000);
     rep.run_stage("ast", || map_case(&cfg()), n, check_case);
     rep.run_stage("odd-names", odd_names_case, ctx.cases(3_000, 60_000), check_odd);
+    let dcfg = GenCfg { max_blocks: 4, max_items: 8, long: 0, big_numbers: false, ..cfg() };
+    rep.run_stage("degenerate", move || map_case(&dcfg), ctx.cases(3_000, 60_000), check_degenerate);
     let corpus = super::c02::corpus_cases(ctx);
     rep.run_enum("corpus", &corpus, check_corpus);
     super::scale::run(&mut rep, ctx, "C10");
@@ -174,6 +193,7 @@ pub fn replay(stage: &str, case: &Value) -> Check {
     }
     match stage {
         "ast" => check_case(&serde_json::from_value(case.clone()).map_err(|e| Fail::new("harness-replay", e.to_string()))?, &mut st),
+        "degenerate" => check_degenerate(&serde_json::from_value(case.clone()).map_err(|e| Fail::new("harness-replay", e.to_string()))?, &mut st),
         "odd-names" => check_odd(&serde_json::from_value(case.clone()).map_err(|e| Fail::new("harness-replay", e.to_string()))?, &mut st),
         "corpus" => check_corpus(&serde_json::from_value(case.clone()).map_err(|e| Fail::new("harness-replay", e.to_string()))?, &mut st),
         _ => Err(Fail::new("harness-replay", format!("unknown stage {stage}"))),
